@@ -104,7 +104,23 @@ func RunC19(r *core.Run) {
 	n := r.Pick(400000, 32000000)
 	r.Stage("requests+variants", n, func(w *core.Worker, idx int64) {
 		rr := core.NewRand(r.Seed, 0xC19, 1, uint64(idx))
-		m := gen.Msg(rr, gen.MsgOpts{Request: 1, MinHdrs: 2, MaxHdrs: 14, Kinds: kinds, CLenMode: 1, MultiNA: 30, NoBody: rr.Bool()})
+		mo := gen.MsgOpts{Request: 1, MinHdrs: 2, MaxHdrs: 14, Kinds: kinds, CLenMode: 1, MultiNA: 30, NoBody: rr.Bool()}
+		if rr.Intn(6) == 0 {
+			// every fingerprinted header type present (INVITE: all eight), in a random order, with a
+			// few others in between: the eighth entry fills the signature
+			seq := []int{gen.HFrom, gen.HTo, gen.HCallID, gen.HCSeq, gen.HVia, gen.HMaxFwd, gen.HContact, gen.HUA}
+			for k := rr.Intn(4); k > 0; k-- {
+				seq = append(seq, []int{gen.HOtherKind, gen.HRoute, gen.HVia, gen.HExpires}[rr.Intn(4)])
+			}
+			for i := len(seq) - 1; i > 0; i-- {
+				j := rr.Intn(i + 1)
+				seq[i], seq[j] = seq[j], seq[i]
+			}
+			mo.Seq = seq
+			mo.Method = []string{"INVITE", "INVITE", "REGISTER", "OPTIONS"}[rr.Intn(4)]
+			w.Inc("requests_with_all_fingerprinted_types")
+		}
+		m := gen.Msg(rr, mo)
 		buf := m.Raw
 		nh := len(m.Hdrs)
 		base := sigOf(buf, nh+2, []int{len(buf)})
